@@ -9,5 +9,7 @@ int main(int argc, char** argv)
   FEAT::Runtime::ScopeGuard guard(argc, argv);
   std::vector<Target> tg;
   tg.push_back({"krylov", [](Tape& t, Ctx& c) { target<G_KRYLOV, double, LocalBE>(t, c, {K_BICGSTAB, K_BICGSTABL, K_FGMRES, K_GMRES}, {3, 3, 2, 2}, maxn()); }, 96, 2, 60000});
+  // thorough tier: same decoder, systems up to n = 120
+  tg.push_back({"krylov_big", [](Tape& t, Ctx& c) { target<G_KRYLOV, double, LocalBE>(t, c, {K_BICGSTAB, K_BICGSTABL, K_FGMRES, K_GMRES}, {3, 3, 2, 2}, 120); }, 96, 3, 120000});
   return main_impl(argc, argv, tg);
 }
